@@ -334,10 +334,13 @@ theorem C15_inverted_range_counterexample :
       (build 0 [(([1] : Key), 10), ([2], 20), ([3], 30)]).stream (.incl [3]) (.excl [1]) none = some []) ∧
     range [(([1] : Key), 10), ([2], 20), ([3], 30)] (.incl [3]) (.excl [1]) = [] := by decide
 
-/- Still to prove (full statements; the harness compares these operations on every run):
-   C15_merge_round_tables     : the per-round tables `kmergeOrds` (mirror of TermMerger::advance +
-                                matching_segments) list, for input i, exactly the pairs
-                                (new ordinal, old ordinal) of `ordMap` (C15_term_ordinal_remap) -/
+/- open (stated contracts / run-only, nothing in this file depends on them as axioms):
+   * tantivy-fst internals: the separator lookup is proved against `FstContract` (C15_fst_locate);
+     the harness compares the real fst-backed index on every dictionary.
+   * zstd block compression and the construction of Levenshtein/regex automata: run-only.
+   * ONE theorem composing footer + framing + store locate/get + delta scan into `ord_to_term`
+     over the bytes of a whole written file: the pieces are proved separately
+     (C15_file_roundtrip, C15_store_locate_then_get, C15_delta_scan, C15_ops_refine_ord_to_term). -/
 
 example : kwayMerge List.sum [[(([1] : Key), 1), ([3], 3)], [([2], 20), ([3], 30)], []]
     = [([1], 1), ([2], 20), ([3], 33)] := by decide
@@ -1091,6 +1094,50 @@ theorem C15_insert_order_no_empty_dup (blockLen : Nat) (ks : List Key) (h : NoEm
 example : AdjOK 1 0 [[], [], [1]] ∧ ¬ AdjOK 1 0 [[], [], []] ∧ ¬ AdjOK 4000 0 [[1], [1]] := by
   simp [AdjOK, lexLt]
 example : writerAccepts 1 [[], [], []] = false ∧ writerAccepts 2 [[], [], [], [5]] = true := by decide
+
+/-! ## round 2: the width `find_best_slope` returns is minimal; locate-then-get on the store file -/
+
+/-- the width `find_best_slope` returns is not only sufficient (`C15_find_best_slope_fits`) but the
+smallest possible for the slope it chose: with one bit less, some deviation would no longer fit
+(`2 ^ (width - 2) ≤ deviation` for some element; widths carry one extra bit for the midpoint
+shift). Whenever any deviation is non-zero and below the 56-bit cut-off. -/
+theorem C15_find_best_slope_width_minimal (els : List (Nat × Nat))
+    (h56 : numBits (maxDeviation (findBestSlope els).1 els) ≤ 56)
+    (hpos : 0 < maxDeviation (findBestSlope els).1 els) :
+    (∀ e ∈ els, deviation (findBestSlope els).1 e.1 e.2 < 2 ^ ((findBestSlope els).2 - 1)) ∧
+    ∃ e ∈ els, 2 ^ ((findBestSlope els).2 - 2) ≤ deviation (findBestSlope els).1 e.1 e.2 :=
+  ⟨(findBestSlope_fits els h56).2.2.2, findBestSlope_width_minimal els h56 hpos⟩
+
+example : 0 < maxDeviation (findBestSlope (rangeEls ⟨7, 1000, 1090⟩ [⟨16, 1090, 1200⟩, ⟨27, 1200, 1310⟩] 1310)).1
+      (rangeEls ⟨7, 1000, 1090⟩ [⟨16, 1090, 1200⟩, ⟨27, 1200, 1310⟩] 1310) ∧
+    maxDeviation (findBestSlope (rangeEls ⟨7, 1000, 1090⟩ [⟨16, 1090, 1200⟩, ⟨27, 1200, 1310⟩] 1310)).1
+      (rangeEls ⟨7, 1000, 1090⟩ [⟨16, 1090, 1200⟩, ⟨27, 1200, 1310⟩] 1310) < 2 ^ 55 := by decide
+
+/-- `locate_with_ord` then `get` on the serialised block-address store, composed: for every
+well-formed store file with strictly increasing first ordinals and every ordinal at or above the
+first one, `binary_search_ord` returns a VALID block id, `get` of it reads an address whose first
+ordinal is `≤ ord`, and the address of the next block id (when there is one) starts strictly above
+`ord` — the block the dictionary then opens is the one that holds the ordinal. -/
+theorem C15_store_locate_then_get (gs : List GroupSpec) (hg : GoodStore gs) (ord : Nat)
+    (hs : (allOrds gs).Pairwise (· < ·)) (h0 : (allOrds gs).getD 0 0 ≤ ord) :
+    ∃ a, (openStore (storeBytes gs)).get ((openStore (storeBytes gs)).locateOrd ord) = some a ∧
+      a.firstOrd ≤ ord ∧
+      ∀ a', (openStore (storeBytes gs)).locateOrd ord + 1 < (allOrds gs).length →
+        (openStore (storeBytes gs)).get ((openStore (storeBytes gs)).locateOrd ord + 1) = some a' →
+        ord < a'.firstOrd := by
+  obtain ⟨h1, h2, h3⟩ := store_locate_spec gs hg ord hs h0
+  obtain ⟨a, ha, hao⟩ := store_get_valid gs hg _ h1
+  refine ⟨a, ha, by rw [hao]; exact h2, ?_⟩
+  intro a' hlt hg'
+  obtain ⟨b, hb, hbo⟩ := store_get_valid gs hg _ hlt
+  rw [hb] at hg'
+  cases hg'
+  rw [hbo]
+  exact h3 hlt
+
+example : (openStore (storeBytes [⟨100, 5, 10, 3, ⟨0, 0, 90⟩, [⟨9, 90, 200⟩], 200⟩])).get
+      ((openStore (storeBytes [⟨100, 5, 10, 3, ⟨0, 0, 90⟩, [⟨9, 90, 200⟩], 200⟩])).locateOrd 12)
+    = some ⟨9, 90, 200⟩ := by decide
 
 /-! ## non-vacuity -/
 
